@@ -20,6 +20,7 @@ RULE = (
     "instances, empty prediction, empty reference, instances on both sides without a true positive - disjoint, below the "
     "matching threshold, or all rejected by the decision threshold) x 3 input types, on 1-D/2-D/3-D inputs (rotating in quick, all three in thorough). "
     "Non-trivial = every zero-TP execution; distinct = hash of (handler, empty-list value, scenario realisation, input type)."
+    " Further families: a long-lived evaluator and evaluators on the library's default handler re-probed while other (also single-metric) handlers are constructed; three of the four scenarios also under np.errstate(all='raise') with warnings as errors; evaluators on the constructor's default metric lists."
 )
 ASSUMPTIONS = ["handlers define every evaluated metric (the statement's quantifier)", "instance counts are taken from the reference model"]
 MINIMUM = {"C08.zero_tp_judged": 5000, "C08.handler_independence_judged": 200}
